@@ -151,7 +151,7 @@ def run_jobs(build, jobs, report, workers=None, on_violation=None):
                     continue
                 seen.add(key)
                 what = '%s: %s in %s (%s:%s)' % (job.name, p['desc'], p.get('func'), p.get('file'), p.get('line'))
-                if key in report.known:
+                if report.match_known(key) is not None:
                     report.violated(key, what, name=job.name, wall_s=r['wall_s'], n_props=r['n_props'])
                     continue
                 replay = None
